@@ -19,7 +19,7 @@ def run(ctx):
     f['pkg/northbound/gnmi/v2/zz_verif_c03.go'] = 'c03/zz_verif_c03.go'
     f['pkg/northbound/gnmi/v2/zz_verif_c04.go'] = 'c04/zz_verif_c04.go'
     sets = [1, 2] if ctx.tier == 'quick' else [1, 2, 3]
-    hs = [H('VerifC04History', 'pkg/northbound/gnmi/v2', f, unwind=16, opts={'params': {'sets': n}, 'cuts': {BUILDER_GET: 'atomix-map-by-name', PROTO_CODEC: 'noop'}},
+    hs = [H('VerifC04History', 'pkg/northbound/gnmi/v2', f, unwind=16, opts={'params': {'sets': n, 'onlycombined': 0}, 'cuts': {BUILDER_GET: 'atomix-map-by-name', PROTO_CODEC: 'noop'}},
             timeout_ms=300000 if ctx.tier == 'quick' else 1800000) for n in sets]
     driver.check_harnesses(ctx, hs)
     driver.write_evidence(ctx, 'model_checking', 'Set -> commit -> apply -> device; restart + re-push by the configuration controller', {'sets': sets}, [])
